@@ -479,11 +479,12 @@ def run(rep, drv):
 		# the key above it, and the result is a NEW dict at every level ("Return a new dict. Works recursively")
 		def gen_nested(depth):
 			d_ = {}
-			for key_ in rng.sample(['null', '1', '-7', '2.5', 'a', 'x', '10', '0'], rng.randint(1, 4)):
+			for key_ in rng.sample(['null', '1', '-7', '2.5', 'a', 'x', '10', '0', '9007199254740993', '-9223372036854775809', '10000000000000000000001'], rng.randint(1, 5)):
 				d_[key_] = gen_nested(depth - 1) if depth > 0 and rng.random() < .6 else rng.choice([0, 1.5, [0, 0], 'null', None])
 			return d_
 		ref_null = lambda d_: {(None if k_ == 'null' else k_): (ref_null(v_) if type(v_) is dict else v_) for k_, v_ in d_.items()}
-		num_key = lambda k_: (int(float(k_)) if float(k_) == int(float(k_)) else float(k_)) if k_ not in ('null', 'a', 'x') else k_
+		# "a string representing an integer is replaced with the integer itself" -- exactly, however large
+		num_key = lambda k_: k_ if k_ in ('null', 'a', 'x') else (int(k_) if k_.lstrip('-').isdigit() else float(k_))
 		ref_num = lambda d_: {num_key(k_): (ref_num(v_) if type(v_) is dict else v_) for k_, v_ in d_.items()}
 		def shares(a_, b_):
 			return a_ is b_ or (type(a_) is dict and type(b_) is dict and any(shares(va_, vb_) for va_ in a_.values() for vb_ in b_.values() if type(va_) is dict and type(vb_) is dict))
